@@ -1,5 +1,449 @@
-//! stream `lex2` (stub; replaced by its builder)
-pub fn generate(_seed: u64, _cases: usize, _out: &mut Vec<String>) {}
-pub fn run(_toks: &[&str]) -> String {
-    "bad-op".to_string()
+//! Stream `lex2` — C12 for the Cypher, SPARQL, GraphQL and Gremlin lexers (the GQL lexer is stream `lex`).
+//!
+//! Stateless lines; query text travels as the lowercase hex of its UTF-8 bytes (`-` = empty).
+//!
+//!   lex2 <lang> <hex> [<alpha> <num>]     CORRESPONDENCE with `Model/Lex2*.lean`: the real lexer's token
+//!                                         list `kind:start-end,…`; `panic` on unwind; `,runaway` appended
+//!                                         when no `eof` arrived within 10000 tokens
+//!   lex2 <lang>.ok <hex> [<alpha> <num>]  the verdict on that token list: `ok` when every span lies on
+//!                                         character boundaries with start <= end <= len, spans are in
+//!                                         order and disjoint, every non-eof token is non-empty, and the
+//!                                         list ends with its only `eof` after at most chars+1 tokens;
+//!                                         `bad:count` / `bad:span` otherwise; `panic` on unwind
+//!
+//! lang ∈ cypher | sparql | graphql | gremlin.  For graphql and gremlin (whose name rules use the
+//! Unicode tables `char::is_alphabetic` / `is_numeric`, which the model takes as parameters) the line
+//! carries the non-ASCII code points of the text that std classifies as alphabetic resp. numeric.
+//! Gremlin's `position` counts characters, so its spans are character indices.
+//!
+//! kinds: eof error str lstr qid int dec flt word punct var iri pname bnode.
+#![allow(unused)]
+use crate::util::*;
+use std::collections::BTreeMap;
+
+const MAX_TOKENS: usize = 10_000;
+pub const LANGS: [&str; 4] = ["cypher", "sparql", "graphql", "gremlin"];
+
+fn hex_arg(s: &str) -> String {
+    if s.is_empty() { "-".to_string() } else { hex(s.as_bytes()) }
+}
+fn text_arg(h: &str) -> Option<String> {
+    String::from_utf8(unhex(h)?).ok()
+}
+
+// ------------------------------------------------------------------------------- implementation
+
+type T3 = (&'static str, usize, usize);
+
+fn head(dbg: &str) -> &str {
+    dbg.split('(').next().unwrap_or(dbg)
+}
+
+fn cypher_class(kind: &str, text: &str) -> &'static str {
+    match kind {
+        "Eof" => "eof",
+        "Error" => "error",
+        "String" => "str",
+        "QuotedIdentifier" => "qid",
+        "Integer" => "int",
+        "Float" => "flt",
+        _ => match text.chars().next() {
+            Some(c) if c.is_ascii_alphabetic() || c == '_' => "word",
+            _ => "punct",
+        },
+    }
+}
+
+fn lex_cypher(text: &str) -> (Vec<T3>, bool) {
+    let mut lx = grafeo_adapters::query::cypher::Lexer::new(text);
+    let mut out = Vec::new();
+    for _ in 0..MAX_TOKENS {
+        let t = lx.next_token();
+        let kind = format!("{:?}", t.kind);
+        // the slice the lexer took is source[start..pos]; span.end holds pos - start (the length)
+        let cls = cypher_class(&kind, &t.text);
+        out.push((cls, t.span.start, t.span.start + t.text.len()));
+        if cls == "eof" {
+            return (out, true);
+        }
+    }
+    (out, false)
+}
+
+fn sparql_class(kind: &str, text: &str) -> &'static str {
+    match kind {
+        "Eof" => "eof",
+        "Error" => "error",
+        "Integer" => "int",
+        "Decimal" => "dec",
+        "Double" => "flt",
+        "String" => "str",
+        "LongString" => "lstr",
+        "Variable" => "var",
+        "Iri" => "iri",
+        "BlankNodeLabel" => "bnode",
+        "PrefixedName" => {
+            if text.contains(':') { "pname" } else { "word" }
+        }
+        "Equals" | "NotEquals" | "LessThan" | "LessOrEqual" | "GreaterThan" | "GreaterOrEqual" | "Plus"
+        | "MinusOp" | "Star" | "Slash" | "Bang" | "AndOp" | "OrOp" | "Caret" | "DoubleCaret" | "At" | "Pipe"
+        | "QuestionMark" | "LeftParen" | "RightParen" | "LeftBracket" | "RightBracket" | "LeftBrace"
+        | "RightBrace" | "Dot" | "Comma" | "Semicolon" | "Colon" | "AnonymousBlank" => "punct",
+        _ => "word",
+    }
+}
+
+fn lex_sparql(text: &str) -> (Vec<T3>, bool) {
+    let mut lx = grafeo_adapters::query::sparql::Lexer::new(text);
+    let mut out = Vec::new();
+    for _ in 0..MAX_TOKENS {
+        let t = lx.next_token();
+        let kind = format!("{:?}", t.kind);
+        let cls = sparql_class(&kind, &t.text);
+        out.push((cls, t.span.start, t.span.end));
+        if cls == "eof" {
+            return (out, true);
+        }
+    }
+    (out, false)
+}
+
+fn graphql_class(kind: &str) -> &'static str {
+    match kind {
+        "Eof" => "eof",
+        "Int" => "int",
+        "Float" => "flt",
+        "String" => "str",
+        "BlockString" => "lstr",
+        "Bang" | "Dollar" | "Amp" | "LParen" | "RParen" | "Spread" | "Colon" | "Eq" | "At" | "LBracket"
+        | "RBracket" | "LBrace" | "RBrace" | "Pipe" => "punct",
+        _ => "word",
+    }
+}
+
+fn lex_graphql(text: &str) -> (Vec<T3>, bool) {
+    let mut lx = grafeo_adapters::query::graphql::Lexer::new(text);
+    let mut out = Vec::new();
+    for _ in 0..MAX_TOKENS {
+        let t = lx.next_token();
+        let dbg = format!("{:?}", t.kind);
+        let cls = graphql_class(head(&dbg));
+        out.push((cls, t.span.start, t.span.end));
+        if cls == "eof" {
+            return (out, true);
+        }
+    }
+    (out, false)
+}
+
+fn gremlin_class(kind: &str) -> &'static str {
+    match kind {
+        "Eof" => "eof",
+        "Integer" => "int",
+        "Float" => "flt",
+        "String" => "str",
+        "Dot" | "Comma" | "LParen" | "RParen" | "LBracket" | "RBracket" | "Underscore" => "punct",
+        _ => "word",
+    }
+}
+
+fn lex_gremlin(text: &str) -> (Vec<T3>, bool) {
+    let mut lx = grafeo_adapters::query::gremlin::Lexer::new(text);
+    let mut out = Vec::new();
+    for _ in 0..MAX_TOKENS {
+        let t = lx.next_token();
+        let dbg = format!("{:?}", t.kind);
+        let cls = gremlin_class(head(&dbg));
+        out.push((cls, t.span.start, t.span.end));
+        if cls == "eof" {
+            return (out, true);
+        }
+    }
+    (out, false)
+}
+
+fn lex(lang: &str, text: &str) -> Option<(Vec<T3>, bool)> {
+    Some(match lang {
+        "cypher" => lex_cypher(text),
+        "sparql" => lex_sparql(text),
+        "graphql" => lex_graphql(text),
+        "gremlin" => lex_gremlin(text),
+        _ => return None,
+    })
+}
+
+fn show(toks: &[T3], ended: bool) -> String {
+    let mut v: Vec<String> = toks.iter().map(|(k, s, e)| format!("{}:{}-{}", k, s, e)).collect();
+    if !ended {
+        v.push("runaway".to_string());
+    }
+    v.join(",")
+}
+
+/// the same check as `Grafeo.Lex2.verdict` (Model/Lex2.lean)
+fn verdict(lang: &str, text: &str, toks: &[T3], ended: bool) -> String {
+    let nchars = text.chars().count();
+    if !ended || toks.len() > nchars + 1 {
+        return "bad:count".to_string();
+    }
+    let legal = |p: usize| -> bool {
+        if lang == "gremlin" { p <= nchars } else { p <= text.len() && text.is_char_boundary(p) }
+    };
+    let mut lo = 0usize;
+    let n = toks.len();
+    if n == 0 {
+        return "bad:span".to_string();
+    }
+    for (i, (k, s, e)) in toks.iter().enumerate() {
+        let last = i + 1 == n;
+        let ok = if last { *k == "eof" && lo <= *s && s <= e } else { *k != "eof" && lo <= *s && s < e };
+        if !ok || !legal(*s) || !legal(*e) {
+            return "bad:span".to_string();
+        }
+        lo = *e;
+    }
+    "ok".to_string()
+}
+
+pub fn run(args: &[&str]) -> String {
+    if args.len() < 2 {
+        return "bad-op".to_string();
+    }
+    let (lang, okline) = match args[0].strip_suffix(".ok") {
+        Some(l) => (l, true),
+        None => (args[0], false),
+    };
+    let uni = lang == "graphql" || lang == "gremlin";
+    if !LANGS.contains(&lang) || args.len() != if uni { 4 } else { 2 } {
+        return "bad-op".to_string();
+    }
+    let Some(text) = text_arg(args[1]) else { return "bad-op".to_string() };
+    guarded(|| {
+        let (toks, ended) = lex(lang, &text).unwrap();
+        if okline { verdict(lang, &text, &toks, ended) } else { show(&toks, ended) }
+    })
+}
+
+// ------------------------------------------------------------------------------------ generator
+
+/// multi-byte and otherwise awkward characters: 2-, 3-, 4-byte, NBSP, NEL, ideographic space,
+/// combining mark, BOM, NUL, digits and letters outside ASCII
+const ODD: &[&str] = &[
+    "é", "ß", "\u{A0}", "\u{85}", "\u{3000}", "\u{2003}", "漢", "字", "😀", "𝒳", "\u{301}", "\u{FEFF}", "\u{0}",
+    "٣", "Ⅷ", "²", "ª", "Ω", "\u{2028}", "\u{200B}", "\u{7F}", "\u{80}", "\u{7FF}", "\u{800}", "\u{FFFF}",
+    "\u{10000}", "\u{10FFFF}",
+];
+
+const WSP: &[&str] = &[" ", " ", " ", "\t", "\n", "\r", "\r\n", "", "", ""];
+
+const CYPHER: &[&str] = &[
+    "MATCH", "match", "OPTIONAL", "WHERE", "RETURN", "CREATE", "DETACH DELETE", "SET", "UNWIND", "AS", "ORDER BY",
+    "STARTS WITH", "IS NOT NULL", "n", "_x1", "Person", "a_b", "x9", "0", "42", "007", "3.14", "1.", "1..2", "1e10",
+    "2.5e-3", "1e", "1e+", "1E-", "1.5e", "1.5E+7", "9e9e9", "1.2.3", "'hello'", "\"world\"", "'a\\'b'", "\"q\\\"q\"",
+    "'multi\nline'", "'open", "\"open\\", "'\\", "''", "`my col`", "`open", "``", "`a``b`", "(", ")", "[", "]", "{",
+    "}", ":", ";", ",", ".", "..", "...", "|", "$", "$p", "^", "%", "*", "/", "+", "+=", "=", "=~", "<", "<>", "<=",
+    "<-", "<--", ">", ">=", "-", "->", "--", "-->", "-[:R]->", "//", "// line comment", "// c\n", "/* block */",
+    "/* open", "/* a * / b **/", "/**/", "/*/", "/", "/ /", "!", "#", "@", "&", "~", "?", "\\",
+];
+
+const SPARQL: &[&str] = &[
+    "SELECT", "select", "WHERE", "PREFIX", "BASE", "FILTER", "OPTIONAL", "GROUP_CONCAT", "a", "true", "ASK", "?x",
+    "?", "?_1", "$y", "$", "?é", "<http://ex/a>", "<http://ex/a b>", "<http://ex/é>", "<a\\>b>", "<open", "<a\nb>",
+    "<a\tb>", "<>", "<", "<=", "< =", "<\n", "<\\", ">", ">=", "foaf:name", "foaf:", ":local", ":", "ex:a.b", "ex:a.",
+    "ex:a. ", "ex:a-b", "é:ü", "_:b1", "_:", "_:a.b-c", "_x", "_", "__:", "0", "42", "3.14", "1.", "1.e5", "1e10",
+    "1E-3", "1e+", "1e", "1.5e3.2", "1.2.3", "1e1e1", "\"str\"", "'str'", "\"a\\\"b\"", "\"open", "'open\\", "\"nl\nx\"",
+    "\"\"", "''", "\"\"\"long\"\"\"", "'''long'''", "\"\"\"a\"b\"\"c\"\"\"", "\"\"\"open", "\"\"\"a\\\"\"\"\"", "'''a\nb'''",
+    "\"\"\"\"", "\"\"\"\"\"", "\"\"\"\"\"\"", "\"x\"@en", "\"x\"@en-GB", "\"1\"^^xsd:int", "^", "^^", "@", "(", ")", "[",
+    "]", "[]", "[ ]", "{", "}", ".", ",", ";", "+", "-", "*", "/", "!", "!=", "=", "&&", "&", "||", "|", "# comment",
+    "# c\n", "#", "%", "~", "`", "\\",
+];
+
+const GRAPHQL: &[&str] = &[
+    "query", "mutation", "fragment", "on", "true", "null", "user", "_id", "name2", "Ünï", "x٣", "{", "}", "(", ")",
+    "[", "]", ":", "=", "@", "!", "$", "$var", "&", "|", "...", "..", ".", "....", "... on", ",", ",,", "# comment",
+    "# c\n", "# c\r", "#", "\u{FEFF}", "0", "42", "-7", "-", "--1", "3.14", "1.", "1.5.2", "1e10", "-2.5E-3", "1e",
+    "1e+", "1ee", "1e1e1", "1.e.", "\"str\"", "\"a\\\"b\"", "\"\\u00e9\"", "\"\\u12\"", "\"\\u\"", "\"\\uZZZZ\"",
+    "\"\\ud800\"", "\"open", "\"open\\", "\"\\", "\"\"", "\"\" ", "\"\"\"block\"\"\"", "\"\"\"a\"b\"\"c\"\"\"",
+    "\"\"\"open", "\"\"\"esc\\\"\"\"x\"\"\"", "\"\"\"\\", "\"\"\"\\\"", "\"\"\"\\\"\"", "\"\"\"\n  a\n   b\n\"\"\"",
+    "\"\"\"\"", "\"\"\"\"\"", "\"\"\"\"\"\"", "\"\"\"\"\"\"\"", "\"\"\"é\n\u{3000}x\"\"\"", "%", "~", "'", "\\", "?",
+];
+
+const GREMLIN: &[&str] = &[
+    "g", "V", "E", "addV", "out", "in_", "hasLabel", "has", "values", "P", "gt", "within", "T", "foo", "_", "_x",
+    "__", "_.", "_1", "_é", "é_", "x٣", ".", ",", "(", ")", "[", "]", "g.V()", "g.V().has('name', 'x')", "0", "42",
+    "-7", "-", "-x", "--1", "3.14", "1.", "1.5.2", "1e10", "-2.5E-3", "1e", "1e+", "1ee", "1e1e1", "'str'", "\"str\"",
+    "'a\\'b'", "\"a\\\"b\"", "'open", "\"open\\", "'\\", "''", "'é漢😀'", "\"éé\"", "{", "}", ":", ";", "!", "#", "@", "$",
+    "%", "=", "<", ">", "\\", "?",
+];
+
+fn frags(lang: &str) -> &'static [&'static str] {
+    match lang {
+        "cypher" => CYPHER,
+        "sparql" => SPARQL,
+        "graphql" => GRAPHQL,
+        _ => GREMLIN,
+    }
+}
+
+fn uni_args(text: &str) -> String {
+    let mut al: Vec<u32> = Vec::new();
+    let mut nu: Vec<u32> = Vec::new();
+    for c in text.chars() {
+        if (c as u32) >= 0x80 {
+            if c.is_alphabetic() && !al.contains(&(c as u32)) {
+                al.push(c as u32);
+            }
+            if c.is_numeric() && !nu.contains(&(c as u32)) {
+                nu.push(c as u32);
+            }
+        }
+    }
+    al.sort();
+    nu.sort();
+    format!(" {} {}", list_arg(&al), list_arg(&nu))
+}
+
+fn emit(out: &mut Vec<String>, lang: &str, text: &str) {
+    let extra = if lang == "graphql" || lang == "gremlin" { uni_args(text) } else { String::new() };
+    out.push(format!("lex2 {} {}{}", lang, hex_arg(text), extra));
+    out.push(format!("lex2 {}.ok {}{}", lang, hex_arg(text), extra));
+}
+
+fn emit_truncations(out: &mut Vec<String>, lang: &str, s: &str) {
+    for (i, _) in s.char_indices().skip(1) {
+        emit(out, lang, &s[..i]);
+    }
+}
+
+/// insert / replace / delete characters at random character positions
+fn mutate(r: &mut Rng, s: &str) -> String {
+    let mut cs: Vec<char> = s.chars().collect();
+    let n = 1 + r.below(3);
+    for _ in 0..n {
+        let at = r.below(cs.len() as u64 + 1) as usize;
+        match r.below(4) {
+            0 | 1 => {
+                let ins: Vec<char> = r.pick(ODD).chars().collect();
+                for (k, c) in ins.into_iter().enumerate() {
+                    cs.insert(at + k, c);
+                }
+            }
+            2 => {
+                if at < cs.len() {
+                    cs[at] = r.pick(ODD).chars().next().unwrap();
+                }
+            }
+            _ => {
+                if at < cs.len() {
+                    cs.remove(at);
+                }
+            }
+        }
+    }
+    cs.into_iter().collect()
+}
+
+fn noise(r: &mut Rng) -> String {
+    let n = r.range(1, 12);
+    let mut s = String::new();
+    for _ in 0..n {
+        let c = match r.below(6) {
+            0 => char::from_u32(r.below(0x80) as u32),
+            1 => char::from_u32(r.range(0x80, 0x7FF) as u32),
+            2 => char::from_u32(r.range(0x800, 0xFFFF) as u32),
+            3 => char::from_u32(r.range(0x10000, 0x10FFFF) as u32),
+            4 => Some(*r.pick(&['"', '\'', '\\', '`', '/', '*', '#', '<', '>', '.', 'e', '-', '_', ':', '?', '$', '1'])),
+            _ => char::from_u32(r.range(0x20, 0x7E) as u32),
+        };
+        if let Some(c) = c {
+            s.push(c);
+        }
+    }
+    s
+}
+
+fn gen_text(r: &mut Rng, lang: &str, stats: &mut BTreeMap<&'static str, usize>) -> String {
+    let mode = r.below(10);
+    let fr = frags(lang);
+    let mut s = String::new();
+    let label = match mode {
+        0..=4 => {
+            let n = r.range(1, 8);
+            for _ in 0..n {
+                s.push_str(*r.pick(fr));
+                s.push_str(*r.pick(WSP));
+            }
+            "fragments"
+        }
+        5..=7 => {
+            let n = r.range(1, 6);
+            for _ in 0..n {
+                s.push_str(*r.pick(fr));
+                s.push_str(*r.pick(WSP));
+            }
+            s = mutate(r, &s);
+            "fragments+odd"
+        }
+        8 => {
+            // one fragment glued to an odd character on either side, no separator
+            s.push_str(*r.pick(ODD));
+            s.push_str(*r.pick(fr));
+            s.push_str(*r.pick(ODD));
+            "glued"
+        }
+        _ => {
+            s = noise(r);
+            "noise"
+        }
+    };
+    *stats.entry(label).or_insert(0) += 1;
+    s
+}
+
+/// languages whose model is wired into the Lean driver
+const ACTIVE: &[&str] = &["cypher", "sparql"];
+
+pub fn generate(seed: u64, cases: usize, out: &mut Vec<String>) {
+    let mut r = Rng::new(seed ^ 0x6c657832);
+    let mut stats: BTreeMap<&'static str, usize> = BTreeMap::new();
+    // ---- fixed boundary lines: every fragment alone, with each truncation, and with an odd tail ----
+    for lang in ACTIVE.iter() {
+        out.push(format!("# case fixed-{} seed {}", lang, seed));
+        emit(out, lang, "");
+        for f in frags(lang).iter() {
+            emit(out, lang, f);
+            emit_truncations(out, lang, f);
+            emit(out, lang, &format!("{}é", f));
+            emit(out, lang, &format!("x {}", f));
+        }
+        for o in ODD.iter() {
+            emit(out, lang, o);
+            emit(out, lang, &format!("a{}1{}", o, o));
+        }
+    }
+    for case in 0..cases {
+        out.push(format!("# case {} seed {}", case, seed));
+        for lang in ACTIVE.iter() {
+            let t = gen_text(&mut r, lang, &mut stats);
+            emit(out, lang, &t);
+        }
+    }
+    if std::env::var("VH_STATS").is_ok() {
+        // distribution of generator modes and of token kinds the real lexers produced
+        let mut kinds: BTreeMap<String, usize> = BTreeMap::new();
+        for l in out.iter() {
+            let toks: Vec<&str> = l.split(' ').collect();
+            if toks.len() >= 3 && toks[0] == "lex2" && !toks[1].ends_with(".ok") {
+                if let Some(t) = text_arg(toks[2]) {
+                    let res = guarded(|| show(&lex(toks[1], &t).unwrap().0, true));
+                    for tk in res.split(',') {
+                        let k = tk.split(':').next().unwrap_or("");
+                        *kinds.entry(format!("{}/{}", toks[1], k)).or_insert(0) += 1;
+                    }
+                }
+            }
+        }
+        eprintln!("lex2 generator modes: {:?}", stats);
+        eprintln!("lex2 token kinds: {:?}", kinds);
+    }
 }
